@@ -7,6 +7,67 @@ import SalsaVerif.Proofs.CycleLfp
 namespace SalsaVerif.Proofs.Cycle
 open SalsaVerif.Model.Cycle
 
+/-! ## small helpers used by the property files -/
+
+/-- the successful result of a request (`Except` has no `DecidableEq`). -/
+def okOf {α β : Type} (f : α → β) : Res α → Option β
+  | .ok r => some (f r)
+  | .error _ => none
+
+def errOf {α : Type} : Res α → Option Panic
+  | .ok _ => none
+  | .error e => some e
+
+/-- stamps reachable from `initial c` by `k` successful increments. -/
+def incrN : Nat → Nat → Option Nat
+  | 0, s => some s
+  | k + 1, s => (SalsaVerif.Gen.Stamp.IterationStamp.increment_iteration s).bind (incrN k)
+
+/-- an error of the query function comes out of a fetch. -/
+theorem evalM_error (env : Nat → Nat) (read : Nat → St → Res Fetched) :
+    ∀ (e : Expr) (s : St) (err : Panic), evalM env read e s = .error err →
+      ∃ c s0, read c s0 = .error err := by
+  intro e
+  induction e with
+  | const c => intro s err h; simp [evalM] at h
+  | input i => intro s err h; simp [evalM] at h
+  | call j =>
+    intro s err h
+    simp only [evalM] at h
+    cases hr : read j s with
+    | error e' => rw [hr] at h; injection h with h; subst h; exact ⟨j, s, hr⟩
+    | ok r => obtain ⟨w, hs1, s1⟩ := r; rw [hr] at h; cases h
+  | union a b iha ihb =>
+    intro s err h
+    simp only [evalM] at h
+    cases ha : evalM env read a s with
+    | error e' => rw [ha] at h; injection h with h; subst h; exact iha s _ ha
+    | ok r =>
+      obtain ⟨x, h1, s1⟩ := r
+      rw [ha] at h
+      simp only at h
+      cases hb : evalM env read b s1 with
+      | error e' => rw [hb] at h; injection h with h; subst h; exact ihb s1 _ hb
+      | ok r2 => obtain ⟨y, h2, s2⟩ := r2; rw [hb] at h; cases h
+  | inter a b iha ihb =>
+    intro s err h
+    simp only [evalM] at h
+    cases ha : evalM env read a s with
+    | error e' => rw [ha] at h; injection h with h; subst h; exact iha s _ ha
+    | ok r =>
+      obtain ⟨x, h1, s1⟩ := r
+      rw [ha] at h
+      simp only at h
+      cases hb : evalM env read b s1 with
+      | error e' => rw [hb] at h; injection h with h; subst h; exact ihb s1 _ hb
+      | ok r2 => obtain ⟨y, h2, s2⟩ := r2; rw [hb] at h; cases h
+  | ite i a b iha ihb =>
+    intro s err h
+    simp only [evalM] at h
+    split at h
+    · exact iha s err h
+    · exact ihb s err h
+
 /-! ## association lists -/
 
 theorem lookup_cons_self {β : Type} (k : Nat) (b : β) (l : List (Nat × β)) :
@@ -53,7 +114,7 @@ theorem lookup_map_val (l : List (Nat × Entry)) (c : Nat) :
   | cons p l ih =>
     obtain ⟨k, e⟩ := p
     by_cases hk : c = k
-    · subst hk; simp [lookup_cons_self]
+    · subst hk; simp
     · simp only [List.map_cons]
       rw [lookup_cons_ne _ _ hk, lookup_cons_ne _ _ hk, ih]
 
@@ -64,7 +125,7 @@ theorem lookup_append {β : Type} (l1 l2 : List (Nat × β)) (c : Nat) :
   | cons p l ih =>
     obtain ⟨k, b⟩ := p
     by_cases hk : c = k
-    · subst hk; simp [lookup_cons_self]
+    · subst hk; simp
     · simp only [List.cons_append]
       rw [lookup_cons_ne _ _ hk, lookup_cons_ne _ _ hk, ih]
 
@@ -76,7 +137,7 @@ theorem lookup_substCache (j : Nat) (hc : List Nat) (l : List (Nat × Entry)) (c
   | cons p l ih =>
     obtain ⟨k, e⟩ := p
     by_cases hk : c = k
-    · subst hk; simp [lookup_cons_self]
+    · subst hk; simp
     · simp only [List.map_cons]
       rw [lookup_cons_ne _ _ hk, lookup_cons_ne _ _ hk, ih]
 
@@ -433,7 +494,7 @@ theorem fetchColdCycle_spec (hNF : NoFallback P) (c : Nat) (s : St) (v : Nat) (h
     refine ⟨hI.nodup, hI.stackFresh, hI.cacheNotFinal, ?_, hI.finalOk, hI.finalClosed, ?_,
       hI.cacheLe, ?_⟩
     · intro hno
-      exact absurd ⟨c, hc, by simp [isHead, lookup_cons_self]⟩ hno
+      exact absurd ⟨c, hc, by simp [isHead]⟩ hno
     · intro c' w hw
       by_cases hcc : c' = c
       · subst hcc
